@@ -433,7 +433,8 @@ Print Assumptions C06_uview_meaning.
 (* the hypotheses of the theorem below, spelled out.  op_names_abs: every path argument begins with the
    separator.  union_handles_inert: the layer handle of every union (directory) handle of the table is
    read-only or closed (CopyOnWriteFs.Open opens both directories read-only; C06_ex_union_handle_inert).
-   cow_call_ok: for Rename, the overlay's own Rename is a well-formed call in the sense of C01 or the
+   cow_call_ok: for Rename, the overlay's own Rename is a portable call of C01 — wf_op, i.e. the whole class
+   wf_op_ord || wf_below: an ordinary well-formed call or one refused below a regular file — or the
    overlay lacks the old name; for the calls that may copy up (Create, OpenFile, Chmod, Chown, Chtimes):
    IF the base holds a directory under the name, that node carries no bytes (dir_no_bytes — true of every
    directory no program has written into through a handle; C06_failed_call_dir_with_bytes_refuted shows
